@@ -386,11 +386,16 @@ def dag(rng, n_cells=None, two_sheets=None, arrays=None, data_sheet=None, forms=
 def add_array(rng, spec, meta):
     """append one CSE array formula *after* every existing cell of Sheet1 (rows 7..9), reading
     existing cells only; members are appended to meta['formulas'] with their deps."""
-    cells = dict(spec['sheets'][0][1])
+    # on the first sheet, or (half of the time, when there is one) on the sheet with a blank in its name
+    si = 0
+    for k, (name, sheet_cells) in enumerate(spec['sheets']):
+        if name == S2 and len(sheet_cells) >= 2 and rng.random() < 0.5:
+            si = k
+    cells = dict(spec['sheets'][si][1])
     coords = sorted(cells, key=lambda c: (int(c.lstrip('ABCDE')), c[0]))
     if len(coords) < 2:
         return
-    sheet = spec['sheets'][0][0]
+    sheet = spec['sheets'][si][0]
     kind = rng.choice(['vec*2', 'vec+vec', 'sumprod', 'row', 'scalar', 'vec*row'])
     col = rng.choice('ABCDE')
     r1 = rng.randint(1, 4)
@@ -433,9 +438,9 @@ def add_array(rng, spec, meta):
         members = [c for row in range_cells(ref) for c in row]
         consumer = f'{coord(1, 13)}'
         if ':' in ref:
-            spec['sheets'][0][1][consumer] = f'=SUM({ref})+{members[0]}'
+            spec['sheets'][si][1][consumer] = f'=SUM({ref})+{members[0]}'
         else:
-            spec['sheets'][0][1][consumer] = f'={members[0]}*3'
+            spec['sheets'][si][1][consumer] = f'={members[0]}*3'
         # SUM(ref) reads the array formula's range node (fed by the sources), not the member cells
         meta['formulas'][addr(sheet, consumer)] = {
             'form': 'cse-consumer', 'deps': sorted(set(deps) | {addr(sheet, members[0])})}
